@@ -165,15 +165,42 @@ int ezc3d::ParametersNS::GroupNS::Parameter::read(ezc3d::c3d &file, int nbCharIn
         throw std::ios_base::failure ("Parameter type unrecognized");
 
     // number of dimension of parameter (0 for scalar)
-    int nDimensions(file.readInt(1*ezc3d::DATA_TYPE::BYTE));
-    if (nDimensions == 0 && _data_type != DATA_TYPE::CHAR) // In the special case of a scalar
+    size_t nDimensions(file.readUint(1*ezc3d::DATA_TYPE::BYTE));
+    if (nDimensions == 0) // In the special case of a scalar
         _dimension.push_back(1);
     else // otherwise it's a matrix
-        for (int i=0; i<nDimensions; ++i)
+        for (size_t i=0; i<nDimensions; ++i)
             _dimension.push_back (file.readUint(1*ezc3d::DATA_TYPE::BYTE));    // Read the dimension size of the matrix
 
+    // Make sure the announced data fit in the rest of the file, otherwise a
+    // corrupted dimension could take forever (and all the memory) to read
+    std::streampos currentPos(file.tellg());
+    file.seekg(0, std::ios::end);
+    size_t remaining(static_cast<size_t>(file.tellg() - currentPos));
+    file.seekg(currentPos);
+    size_t nBytes(static_cast<size_t>(abs(lengthInByte)));
+    size_t nValues(1); // Number of values to read (for CHAR, the first dimension is the length of each value)
+    bool firstIsLength(_data_type == DATA_TYPE::CHAR && _dimension.size() > 1);
+    for (size_t i=0; i<_dimension.size(); ++i)
+        if (_dimension[i] == 0){ // An empty parameter
+            nBytes = 0;
+            if (i > 0 || !firstIsLength)
+                nValues = 0;
+        }
+    for (size_t i=0; i<_dimension.size(); ++i){
+        if (nBytes != 0)
+            nBytes *= _dimension[i];
+        if (nValues != 0 && (i > 0 || !firstIsLength))
+            nValues *= _dimension[i];
+        if (nBytes > remaining || nValues > remaining + 0xFFFF)
+            throw std::ios_base::failure ("Parameter is larger than the file");
+    }
+
     // Read the data for the parameters
-    if (_data_type == DATA_TYPE::CHAR)
+    if (nValues == 0) {
+        // Nothing to read
+    }
+    else if (_data_type == DATA_TYPE::CHAR)
         file.readParam(_dimension, _param_data_string);
     else if (_data_type == DATA_TYPE::BYTE)
         file.readParam(static_cast<unsigned int>(_data_type), _dimension, _param_data_int);
